@@ -92,6 +92,17 @@ func (ex *Exec) unop(fr *Frame, x *ssa.UnOp, st *State, reach Term) Val {
 	case token.NOT:
 		return Scalar{Not(ex.scalar(v)), x.Type()}
 	case token.ARROW:
+		if ex.isMailbox(x.X) && !x.CommaOk {
+			ch := ex.scalar(v)
+			elem := under(x.X.Type()).(*types.Chan).Elem()
+			full := Select(mboxFull(st), ch)
+			ob := ex.vc.oblige("chan", fr.name("chan-take-empty:"+chanFieldKey(x.X)), reach, full, ex.where(x.Pos()))
+			ob.Descr = "a receive on an empty one-slot mailbox would block forever (single goroutine)"
+			ex.vc.assume(Implies(reach, full))
+			val := ex.mboxGet(ch, elem, st)
+			ex.mboxSetFull(ch, False, st)
+			return val
+		}
 		// channel receive: an arbitrary value
 		ex.vc.Assumptions["channels are opaque: a send has no modelled effect, a receive yields an arbitrary value (no deadlock reasoning)"] = true
 		if x.CommaOk {
